@@ -1,5 +1,6 @@
 import Gv.Oracle.Common
 import Gv.Model.Seq
+import Gv.Oracle.Translate
 import Gv.Spec.Genetic
 /-! Oracle handlers for the sequence-level operations (C05 codons/frames, C06). -/
 namespace Gv.Oracle.SeqOps
@@ -102,7 +103,10 @@ def handle : Handler := fun op args impl =>
     let render (out : List (String × Seq)) : String :=
       let len : Int := match out with | [] => -1 | x :: _ => x.2.length
       "ok " ++ toString len ++ " " ++ implAlpha ++ " " ++ encRows out
-    let model := rows.flatMap fun r => frames.filterMap fun f => (translateSeq f code r.2).map fun p => (nm r.1 f, p)
+    -- the model of the container operation (`Model/Translate.lean`: rows, names, cached length)
+    let modelStr := match alignTranslate alpha ph code rows with
+      | none => "err"
+      | some (out, len) => "ok " ++ toString len ++ " " ++ implAlpha ++ " " ++ encRows out
     let spec := rows.flatMap fun r => frames.map fun f => (nm r.1 f, specTranslate (Spec.ncbi code.toNat) (r.2.drop f))
     let names := spec.map Prod.fst
     if names.eraseDups.length != names.length then some ⟨"unmodelled", "na"⟩ else
@@ -110,7 +114,7 @@ def handle : Handler := fun op args impl =>
       some ⟨"err", if rows.all (fun r => (detectAlphabetSeq r.2 == NUCLEOTIDS || detectAlphabetSeq r.2 == BOTH)) then verdictOf (impl.startsWith "err") "altranslate-must-fail" else "na"⟩
     else
       let ok := rows.all fun r => (detectAlphabetSeq r.2 == NUCLEOTIDS || detectAlphabetSeq r.2 == BOTH)
-      some ⟨render model, if ok then verdictOf (impl == render spec) "altranslate-rows-or-length" else "na"⟩
-  | _, _ => none
+      some ⟨modelStr, if ok then verdictOf (impl == render spec) "altranslate-rows-or-length" else "na"⟩
+  | _, _ => TranslateOps.handle op args impl
 
 end Gv.Oracle.SeqOps
